@@ -290,6 +290,36 @@ def _call_kind(prog: Program, u: Unit, call: ast.AST) -> Optional[str]:
     return None
 
 
+def _listcomp_elt_kind(du: DefUse, nid: int, lc: ast.ListComp) -> Optional[str]:
+    """'controls' for `[f(step) for f in fs]` where fs is a list of closures (lambdas, or
+    calls of a factory) each of which asks a Control for its controls."""
+    elt = lc.elt
+    if not (isinstance(elt, ast.Call) and isinstance(elt.func, ast.Name) and len(lc.generators) == 1):
+        return None
+    gen = lc.generators[0]
+    if not (isinstance(gen.target, ast.Name) and gen.target.id == elt.func.id
+            and isinstance(gen.iter, ast.Name)):
+        return None
+    kinds = set()
+    for d in du.reaching(nid, gen.iter.id):
+        v = d.value
+        makers = []
+        if isinstance(v, ast.ListComp):
+            makers = [v.elt]
+        elif isinstance(v, (ast.List, ast.Tuple)):
+            makers = list(v.elts)
+        if not makers:
+            return None
+        for m in makers:
+            if isinstance(m, ast.Lambda) and any(
+                    isinstance(c, ast.Call) and isinstance(c.func, ast.Attribute)
+                    and c.func.attr == "get_controls" for c in ast.walk(m.body)):
+                kinds.add("controls")
+            else:
+                kinds.add(None)
+    return "controls" if kinds == {"controls"} else None
+
+
 def _product_operands(e: ast.AST) -> Optional[List[ast.AST]]:
     """[left, right] of a matrix product of two superoperators
     (`A @ B`, np.dot(A, B) / np.matmul(A, B), A.dot(B))."""
@@ -426,7 +456,7 @@ def _comp_role(prog, u, du, nid, gen: ast.comprehension, name: str,
                     for d in du.reaching(nid, src.id):
                         v = d.value
                         if isinstance(v, ast.ListComp) and isinstance(v.elt, ast.Call):
-                            k = _call_kind(prog, u, v.elt)
+                            k = _call_kind(prog, u, v.elt) or _listcomp_elt_kind(du, d.node, v)
                             if k == "controls":
                                 kinds.add("PRE" if pos == 0 else "POST")
                             elif dotted(v.elt.func) in prop_names or (
@@ -1140,6 +1170,20 @@ def o6(prog: Program, chk: Check) -> None:
                                                "backends.pt_tebd_backend", "system"}, floor=1)
 
 
+def o7(prog: Program, chk: Check) -> None:
+    chk.rule("O7", "each system of a mean-field computation (each site of a chain) gets the "
+             "controls that were registered for it: no closure that looks controls up and is "
+             "kept beyond the loop iteration / comprehension that made it reads a variable the "
+             "loop rebinds (all of them would use the Control object of the last system). "
+             "Expected count is zero; a built-in example is judged on every run", floor=1)
+    from rules import latebinding
+    latebinding.self_check("O7")
+    n = latebinding.late_binding(prog, chk, "O7", modules={"system_dynamics", "gradient", "pt_tebd",
+                                                            "control", "tempo"})
+    chk.add("O7", prog.module("system_dynamics"), f"{n} closures created in loops / comprehensions "
+            f"examined; built-in example judged as expected", True, "")
+
+
 def run(prog: Program, chk: Check) -> None:
     chk.explanation = (
         "Decides the order clauses of C18: O1 composition order of stacked controls in Control "
@@ -1158,3 +1202,4 @@ def run(prog: Program, chk: Check) -> None:
     chk.call(o4, prog, chk)
     chk.call(o5, prog, chk)
     chk.call(o6, prog, chk)
+    chk.call(o7, prog, chk)
